@@ -67,6 +67,7 @@ func mkWrapper(name string, code []byte, extra []account, gas uint64, input []by
 	if i := strings.Index(kind, "/"); i >= 0 {
 		kind = kind[:i]
 	}
+	p.capKey = "wrapper=" + kind
 	return wrapperProg{p, "wrapper=" + kind}
 }
 
